@@ -139,6 +139,10 @@ def reexecute(kf, catalogue):
     except Exception as e:
         return 'harness', repr(e)
     d = driver.diff(kf['asbuilt'], obs)
+    if not d and kf.get('text_re'):
+        import re
+        if not re.search(kf['text_re'], obs.get('x', {}).get('exc', '')):
+            return 'changed', ['x.exc']
     if not d:
         return 'still', []
     if 'strict' in kf and not driver.diff(kf['strict'], obs):
